@@ -247,7 +247,7 @@ pub fn run(cfg: &Cfg) -> Outcome {
                 return acc;
             }
             let t0 = std::time::Instant::now();
-            check_item(&items[*i], &ctxs[*c], if cfg.quick() { 4_000_000 } else { 1_000_000_000 }, &mut acc);
+            check_item(&items[*i], &ctxs[*c], if cfg.quick() { 4_000_000 } else { 30_000_000 }, &mut acc);
             if std::env::var("OHMC_SLOW").is_ok() && t0.elapsed().as_secs_f64() > 2.0 {
                 eprintln!("slow item {:.1}s: {} [{}]", t0.elapsed().as_secs_f64(), items[*i].text, ctxs[*c].name);
             }
